@@ -180,5 +180,5 @@ Qed.
 Definition ex_leaf := JRec (s2l "id0") [] [] [] [] (s2l "0001-01-01T00:00:00Z") (s2l "0001-01-01T00:00:00Z") true 1 [] [].
 Definition ex_rec := JRec (s2l "id1") (s2l "proc") (s2l "echo ""a<b>&"" > x\y") [(s2l "k", s2l "v"); (s2l "k2", [ascii_of_nat 10; ascii_of_nat 1])] []
                           (s2l "2026-01-01T10:00:00.5Z") (s2l "2026-01-01T10:00:01Z") false 1234 [(s2l "o", s2l "x")] [(s2l "in.txt", ex_leaf); (s2l "b.txt", ex_leaf)].
-Theorem decode_render_example : decode (render 0 ex_rec) = Some ex_rec.
+Theorem decode_render_example : decode (jrender 0 ex_rec) = Some ex_rec.
 Proof. vm_compute. reflexivity. Qed.
